@@ -1,5 +1,5 @@
 import Pycoin.Driver.Core
-import Pycoin.Model.BlockChain
+import Pycoin.Model.BlockChainApi
 /-!
 `c15 <anchor> <iter> <headers> <steps>` — a whole history of `add_headers` / `lock_to_index` calls
 (see harness/props/c15.py for the syntax and the answer format).
@@ -15,7 +15,12 @@ def parseHeader? (s : String) : Option Header :=
   | [h, p, w] => do pure ⟨← parseNat? h, ← parseNat? p, ← parseNat? w⟩
   | _ => none
 
-def parseStep? (hdrs : List Header) (s : String) : Option Step := do
+/-- a step of the line protocol: a call the theorems speak about, or `preload_locked_blocks` -/
+inductive DStep
+  | s (st : Step)
+  | pre (hdrs : List Header)
+
+def parseStep? (hdrs : List Header) (s : String) : Option DStep := do
   let kind := s.take 1 |>.toString
   let rest := (s.drop 1).toString
   let (body, rk) ← match rest.splitOn "!" with
@@ -26,9 +31,13 @@ def parseStep? (hdrs : List Header) (s : String) : Option Step := do
   if kind = "A" then
     let hs ← parseDots? body
     let batch ← hs.mapM fun h => hdrs.find? (·.hash = h)
-    pure (Step.add batch rank)
+    pure (.s (Step.add batch rank))
   else if kind = "L" then
-    pure (Step.lock (← parseNat? body) rank)
+    pure (.s (Step.lock (← parseNat? body) rank))
+  else if kind = "P" then
+    let hs ← parseDots? body
+    let pre ← hs.mapM fun h => hdrs.find? (·.hash = h)
+    pure (.pre pre)
   else none
 
 def dots (l : List String) : String := if l.isEmpty then "~" else ".".intercalate l
@@ -43,33 +52,59 @@ def showItem (t : Item) : String :=
 def showErr (e : Err) : String := "err " ++ e.tag
 
 /-- a `lock_to_index` beyond the reported chain: outside the property, the history stops before the call -/
-def beyond (rev : Bool) (bc : BC) : Step → Bool
-  | .lock index _ => match bc.length rev with
+def beyond (rev : Bool) (bc : BC) : DStep → Bool
+  | .s (.lock index _) => match bc.length rev with
     | .ok n => index > n
     | .error _ => false
   | _ => false
 
+def showExH : Except Err Nat → String
+  | .ok h => toString h
+  | .error _ => "E"
+
 /-- everything the harness reads after a step -/
-def observe (rev : Bool) (hdrs : List Header) (isAdd : Bool) (o : Obs) (bc : BC) : Except Err String := do
+def observe (rev : Bool) (hdrs : List Header) (isAdd : Bool) (o : Obs) (q : List Op) (bc : BC) : Except Err String := do
   let n ← bc.length rev
   let chain ← (List.range n).mapM (bc.hashForIndex rev)
   let tups ← (List.range n).mapM (bc.tupleForIndex rev)
-  let last ← bc.lastBlockHash rev
+  let last ← bc.lastBlockHashI rev
   let sops := if isAdd then dots (o.ops.map showOp) else "~"
-  let lk := "~"   -- `did_lock_to_index_f` is modelled (`Obs.lockCb`) but not part of the property: not compared
+  let lk := match o.lockCb with
+    | some (items, start) => s!"{start}:" ++ dots (items.map showItem)
+    | none => "~"
   let idx := dots (hdrs.map fun h => s!"{h.hash}:" ++ (match bc.indexForHash h.hash with | some i => toString i | none => "-"))
-  .ok (s!"ops={sops};cb={sops};lk={lk};len={n};locked={bc.locked.length};chain={dots (chain.map toString)};last={last};idx={idx};tup={dots (tups.map showItem)}")
+  -- negative indices -1 … -n, the first index out of range on either side, the whole tuple at -1
+  let neg ← (List.range n).mapM fun (i : Nat) => bc.hashForIndexI rev (-(i : Int) - 1)
+  let oob := showExH (bc.hashForIndexI rev (-(n : Int) - 1)) ++ "," ++ showExH (bc.hashForIndexI rev (n : Int))
+  let nt := match bc.tupleForIndexI rev (-1) with
+    | .ok t => showItem t
+    | .error _ => "E"
+  let ul ← bc.unlockedLength rev
+  let known := String.join (hdrs.map fun h => showBool (bc.isHashKnown h.hash))
+  .ok (s!"ops={sops};cb={sops};lk={lk};len={n};locked={bc.lockedLength};chain={dots (chain.map toString)};last={last};idx={idx};tup={dots (tups.map showItem)}" ++
+       s!";neg={dots (neg.map toString)};oob={oob};nt={nt};ul={ul};known={if known.isEmpty then "~" else known};q={dots (q.map showOp)}")
 
-def run (rev : Bool) (hdrs : List Header) : List Step → BC → List String → List String
-  | [], _, acc => acc.reverse
-  | s :: ss, bc, acc =>
+/-- one call; the change callback feeds its ops through `_update_q` into the queue `q` -/
+def dstep (rev : Bool) (bc : BC) (q : List Op) : DStep → Except Err (Obs × BC × List Op × Bool)
+  | .s (.add batch rank) => do
+    let (o, bc') ← bc.step rev (.add batch rank)
+    let q' ← updateQ q o.ops
+    .ok (o, bc', q', true)
+  | .s (.lock index rank) => do
+    let (o, bc') ← bc.step rev (.lock index rank)
+    .ok (o, bc', q, false)
+  | .pre pre => .ok (⟨[], none⟩, bc.preload pre, q, false)
+
+def run (rev : Bool) (hdrs : List Header) : List DStep → BC → List Op → List String → List String
+  | [], _, _, acc => acc.reverse
+  | s :: ss, bc, q, acc =>
     if beyond rev bc s then ("outside" :: acc).reverse else
-    match bc.step rev s with
+    match dstep rev bc q s with
     | .error e => (showErr e :: acc).reverse
-    | .ok (o, bc') =>
-      match observe rev hdrs (match s with | .add .. => true | _ => false) o bc' with
+    | .ok (o, bc', q', isAdd) =>
+      match observe rev hdrs isAdd o q' bc' with
       | .error e => (showErr e :: acc).reverse
-      | .ok line => run rev hdrs ss bc' (line :: acc)
+      | .ok line => run rev hdrs ss bc' q' (line :: acc)
 
 /-! `c15inv`: the finder-side hypotheses of the C15 theorems (`FinderSound`, `CF.Covers`, the cached chain is an
 upward path of the current finder), evaluated after every step of the history -/
@@ -93,28 +128,57 @@ def coversB (cf : CF) : Bool :=
         | none => false)
       | none => false)
 
+/-- `missing_parents()` with a non-empty set = parents of registered hashes that are not registered -/
+def missingB (cf : CF) : Bool :=
+  let waited := (cf.dbt.filter fun e => match dget cf.dbt e.1 with | some (_ :: _) => true | _ => false).map (·.1)
+  let tops := (cf.parent.filter fun e => (dget cf.parent e.2).isNone).map (·.2)
+  waited.all (tops.contains ·) && tops.all (waited.contains ·)
+
 def cacheB (bc : BC) : Bool :=
   match bc.cache with
   | some c => upPathB bc.finder.parent (c ++ [bc.parentHash])
   | none => true
 
-def runInv (rev : Bool) : List Step → BC → List String → List String
+def runInv (rev : Bool) : List DStep → BC → List String → List String
   | [], _, acc => acc.reverse
   | s :: ss, bc, acc =>
     if beyond rev bc s then ("outside" :: acc).reverse else
-    match bc.step rev s with
+    match (match s with
+      | .s st => (match bc.step rev st with | .ok (_, b) => Except.ok b | .error e => .error e)
+      | .pre pre => Except.ok (bc.preload pre) : Except Err BC) with
     | .error e => (showErr e :: acc).reverse
-    | .ok (_, bc') =>
-      runInv rev ss bc' ((showBool (soundB bc'.finder) ++ showBool (coversB bc'.finder) ++ showBool (cacheB bc')) :: acc)
+    | .ok bc' =>
+      runInv rev ss bc' ((showBool (soundB bc'.finder) ++ showBool (coversB bc'.finder) ++ showBool (cacheB bc') ++
+        showBool (missingB bc'.finder)) :: acc)
+
+/-- `+h@i` / `-h@i`; `h = -1` stands for a block that is not in storage (`None`) -/
+def parseOp? (s : String) : Option Op := do
+  let kind := s.take 1 |>.toString
+  match ((s.drop 1).toString).splitOn "@" with
+  | [h, i] =>
+    let i ← parseInt? i
+    let h ← if h = "-1" then some none else (parseNat? h).map some
+    if kind = "+" then some (Op.add h i) else if kind = "-" then some (Op.remove h i) else none
+  | _ => none
+
+def parseOps? (s : String) : Option (List Op) :=
+  if s = "~" then some [] else (s.splitOn ".").mapM parseOp?
 
 def handle : Handler := fun op args =>
   match op, args with
+  | "c15q", [q, ops] => do
+    -- `_update_q(q, ops)` on its own
+    let q ← parseOps? q
+    let ops ← parseOps? ops
+    match updateQ q ops with
+    | .ok q' => some ("ok " ++ dots (q'.map showOp))
+    | .error e => some (showErr e)
   | "c15", [anchor, iter, hdrs, steps] => do
     let anchor ← parseNat? anchor
     let rev := iter = "1"
     let hdrs ← if hdrs = "~" then some [] else (hdrs.splitOn ",").mapM parseHeader?
     let steps ← if steps = "~" then some [] else (steps.splitOn ",").mapM (parseStep? hdrs)
-    let out := run rev hdrs steps (BC.new anchor) []
+    let out := run rev hdrs steps (BC.new anchor) [] []
     some ("ok " ++ (if out.isEmpty then "~" else "|".intercalate out))
   | "c15two", [iter, anchorA, hdrsA, anchorB, hdrsB, steps] => do
     -- two objects fed interleaved: in the model they share nothing, so each is its own history
@@ -128,7 +192,7 @@ def handle : Handler := fun op args =>
     let stA ← (tagged.filter (·.startsWith "0")).mapM fun t => parseStep? hA (t.drop 1).toString
     let stB ← (tagged.filter (·.startsWith "1")).mapM fun t => parseStep? hB (t.drop 1).toString
     let show' := fun (out : List String) => if out.isEmpty then "~" else "|".intercalate out
-    some ("ok " ++ show' (run rev hA stA (BC.new aA) []) ++ "#" ++ show' (run rev hB stB (BC.new aB) []))
+    some ("ok " ++ show' (run rev hA stA (BC.new aA) [] []) ++ "#" ++ show' (run rev hB stB (BC.new aB) [] []))
   | "c15inv", [anchor, iter, hdrs, steps] => do
     let anchor ← parseNat? anchor
     let rev := iter = "1"
